@@ -109,7 +109,11 @@ def turtlemd_native(spec, tier, seed):
                     errs = []
                     for k, pt in enumerate(p.phasepoints):
                         f, idx = pt.config
-                        snap = list(read_xyz_file(f))[idx]
+                        snaps = list(read_xyz_file(f))
+                        if not (0 <= idx < len(snaps)):
+                            errs.append(f"frame {k}: stored configuration ({os.path.basename(f)}, {idx}) does not exist (the file has {len(snaps)} frames)")
+                            continue
+                        snap = snaps[idx]
                         box, xyz, vel, _ = convert_snapshot(snap)
                         fr = System()
                         fr.pos, fr.vel, fr.box = xyz, (-vel if pt.vel_rev else vel), box
